@@ -57,9 +57,18 @@ struct Slot {
     stop_gated: Arc<Mutex<bool>>,
 }
 
+/// every worker actor ever built (a slot's previous occupants included)
+struct Built {
+    wid: WorkerId,
+    actor: ActorRef<WorkerMessage<Key, Msg>>,
+    stop_gate: Arc<Semaphore>,
+    stop_gated: Arc<Mutex<bool>>,
+}
+
 #[derive(Default)]
 struct Shared {
     events: Vec<String>,
+    all: Vec<Built>,
     slots: HashMap<WorkerId, Slot>,
     builds: HashMap<WorkerId, u64>,
 }
@@ -96,6 +105,12 @@ impl Actor for HWorker {
         let fail = Arc::new(Mutex::new(false));
         let stop_gate = Arc::new(Semaphore::new(0));
         let stop_gated = Arc::new(Mutex::new(false));
+        self.sh.lock().unwrap().all.push(Built {
+            wid: args.wid,
+            actor: myself.clone(),
+            stop_gate: stop_gate.clone(),
+            stop_gated: stop_gated.clone(),
+        });
         self.sh.lock().unwrap().slots.insert(
             args.wid,
             Slot {
@@ -297,21 +312,35 @@ where
                 }
             }
             "stopw" => {
-                // user code stops the worker actor of slot w; its post_stop is slow (gated)
+                // user code stops the IDLE worker actor of slot w; its post_stop is slow (gated)
                 let w: usize = op[1].parse().unwrap();
                 let g = sh.lock().unwrap();
                 if let Some(s) = g.slots.get(&w) {
-                    if s.actor.get_status() == ActorStatus::Running {
+                    if s.running.is_none() && s.actor.get_status() == ActorStatus::Running {
                         *s.stop_gated.lock().unwrap() = true;
                         s.actor.stop(None);
                     }
                 }
             }
-            "openstop" => {
+            "gatestop" => {
+                // the current actor of slot w gets a slow post_stop (whoever stops it later)
                 let w: usize = op[1].parse().unwrap();
                 let g = sh.lock().unwrap();
                 if let Some(s) = g.slots.get(&w) {
-                    s.stop_gate.add_permits(1);
+                    if s.actor.get_status() == ActorStatus::Running {
+                        *s.stop_gated.lock().unwrap() = true;
+                    }
+                }
+            }
+            "openstop" => {
+                // every actor ever built for slot w: post_stop no longer slow; release the blocked ones
+                let w: usize = op[1].parse().unwrap();
+                let g = sh.lock().unwrap();
+                for b in g.all.iter().filter(|b| b.wid == w) {
+                    let was = std::mem::replace(&mut *b.stop_gated.lock().unwrap(), false);
+                    if was && b.actor.get_status() == ActorStatus::Stopping {
+                        b.stop_gate.add_permits(1);
+                    }
                 }
             }
             "kill" => {
@@ -373,12 +402,14 @@ where
                 } else {
                     None
                 };
+                // all worker actors this harness built that are still running, by slot (a slot
+                // listed twice = an actor the factory no longer knows is still alive)
                 let mut live: Vec<u64> = {
                     let g = sh.lock().unwrap();
-                    g.slots
+                    g.all
                         .iter()
-                        .filter(|(_, s)| s.actor.get_status() == ActorStatus::Running)
-                        .map(|(w, _)| *w as u64)
+                        .filter(|b| b.actor.get_status() == ActorStatus::Running)
+                        .map(|b| b.wid as u64)
                         .collect()
                 };
                 live.sort();
@@ -389,8 +420,8 @@ where
     }
     // clean up: kill whatever is left so the runtime can be dropped
     factory.kill();
-    for s in sh.lock().unwrap().slots.values() {
-        s.actor.kill();
+    for b in sh.lock().unwrap().all.iter() {
+        b.actor.kill();
     }
     tokio::time::sleep(Duration::from_nanos(1)).await;
     coq_list(&windows)
